@@ -295,6 +295,7 @@ type fileSpec struct {
 	Content string `json:"content"`
 	Dir     bool   `json:"dir,omitempty"`
 	Mode    *int   `json:"mode,omitempty"`
+	Link    string `json:"link,omitempty"` // a symbolic link with this target
 }
 
 type caseSpec struct {
@@ -511,6 +512,14 @@ func runOne(tmpbase string, c caseSpec) (res map[string]any) {
 	var chmods []fileSpec
 	for _, f := range c.Files {
 		p := filepath.Join(dir, f.Path)
+		if f.Link != "" {
+			_ = os.MkdirAll(filepath.Dir(p), 0o755)
+			if err := os.Symlink(f.Link, p); err != nil {
+				res["harness_error"] = err.Error()
+				return
+			}
+			continue
+		}
 		if f.Dir {
 			_ = os.MkdirAll(p, 0o755)
 		} else {
@@ -667,10 +676,22 @@ func runCases(tmpbase string) {
 			continue
 		}
 		var c caseSpec
-		if err := json.Unmarshal(line, &c); err != nil {
+		// strict: a misspelt key (a flag the tool would silently not get) is a fault of the harness, not an input
+		dec := json.NewDecoder(bytes.NewReader(line))
+		dec.DisallowUnknownFields()
+		if err := dec.Decode(&c); err != nil {
 			_ = enc.Encode(map[string]any{"harness_error": err.Error()})
 			continue
 		}
+		// strings that are not valid UTF-8 arrive as "\uE000HEX:<hex>" (the same marker the answers use)
+		for i := range c.Files {
+			c.Files[i].Content = unmarkHex(c.Files[i].Content)
+			c.Files[i].Path = unmarkHex(c.Files[i].Path)
+		}
+		for i := range c.Patterns {
+			c.Patterns[i] = unmarkHex(c.Patterns[i])
+		}
+		c.Output = unmarkHex(c.Output)
 		// watchdog: a case that does not finish is reported as a hang and ends this process (the goroutine cannot be stopped)
 		done := make(chan map[string]any, 1)
 		go func() { done <- runOne(tmpbase, c) }()
@@ -684,6 +705,16 @@ func runCases(tmpbase string) {
 		}
 		w.Flush()
 	}
+}
+
+func unmarkHex(s string) string {
+	const pfx = "\uE000HEX:"
+	if strings.HasPrefix(s, pfx) {
+		if b, err := hex.DecodeString(s[len(pfx):]); err == nil {
+			return string(b)
+		}
+	}
+	return s
 }
 
 // hexInvalid walks a result and replaces every string that is not valid UTF-8 (keys included) by a marker carrying its bytes in
